@@ -1,7 +1,823 @@
-//! C13 — hashing and transcript sponge (see DESIGN.md §C13).
+//! C13 — optimised hashing and the transcript sponge equal their specification (DESIGN.md §C13).
+//!
+//! Oracles: `oracle::poseidon_ref` (textbook Poseidon, overwrite-mode sponge, duplex model) and
+//! `oracle::keccak_ref` (Keccak-f[1600], Keccak-256, rejection-sampling pseudo-permutation).
+//! All comparisons are by canonical residue.
 
-use crate::engine::Ctx;
+use plonky2::hash::hash_types::{BytesHash, HashOut};
+use plonky2::hash::hashing::{compress, hash_n_to_hash_no_pad, hash_n_to_m_no_pad, PlonkyPermutation};
+use plonky2::hash::keccak::{KeccakHash, KeccakPermutation};
+use plonky2::hash::merkle_tree::MerkleCap;
+use plonky2::hash::poseidon::{Poseidon, PoseidonHash, PoseidonPermutation};
+use plonky2::iop::challenger::Challenger;
+use plonky2::plonk::config::Hasher;
+use plonky2_field::extension::quadratic::QuadraticExtension;
+use plonky2_field::goldilocks_field::GoldilocksField as F;
+use plonky2_field::types::{Field, Field64, PrimeField64};
+use proptest::array::{uniform12, uniform2, uniform4};
+use proptest::collection::vec;
+use proptest::prelude::*;
+use serde::{Deserialize, Serialize};
+use serde_json::json;
+
+use crate::engine::{bx, frac, Ctx, Stats};
+use crate::gen::field::{any_repr, class_of, is_boundary, EPS, P};
+use crate::oracle::keccak_ref as kref;
+use crate::oracle::poseidon_ref as pref;
+
+type QE = QuadraticExtension<F>;
+
+// ------------------------------------------------------------------------------------------
+// helpers
+// ------------------------------------------------------------------------------------------
+
+fn fs(v: &[u64]) -> Vec<F> {
+    v.iter().map(|&x| F(x)).collect()
+}
+
+fn cmp(what: &str, got: &[F], want: &[u64]) -> Result<(), String> {
+    let g: Vec<u64> = got.iter().map(|x| x.to_canonical_u64()).collect();
+    if g.as_slice() != want {
+        return Err(format!("{}: got {:x?} want {:x?}", what, g, want));
+    }
+    Ok(())
+}
+
+fn noncanonical() -> BoxedStrategy<u64> {
+    prop_oneof![
+        2 => (0u64..4).prop_map(|k| P + k),
+        2 => (0u64..4).prop_map(|k| u64::MAX - k),
+        2 => P..=u64::MAX,
+    ]
+    .boxed()
+}
+
+fn extreme() -> BoxedStrategy<u64> {
+    prop::sample::select(vec![
+        0u64,
+        1,
+        P - 1,
+        P,
+        P + 1,
+        u64::MAX,
+        u64::MAX - 1,
+        EPS,
+        EPS + 1,
+        1 << 63,
+        0xFFFF_FFFF_0000_0000,
+        0xFFFF_FFFE_FFFF_FFFF,
+        0x7FFF_FFFF_FFFF_FFFF,
+    ])
+    .boxed()
+}
+
+/// 12-element state, any representation per element, several correlated shapes.
+fn state12() -> BoxedStrategy<[u64; 12]> {
+    prop_oneof![
+        6 => uniform12(any_repr()),
+        1 => any_repr().prop_map(|x| [x; 12]),
+        2 => uniform12(noncanonical()),
+        1 => uniform12(any::<u64>()),
+        2 => uniform12(extreme()),
+        1 => (uniform12(any_repr()), any::<u16>()).prop_map(|(mut s, m)| {
+            for (i, x) in s.iter_mut().enumerate() {
+                if m >> i & 1 == 0 {
+                    *x = 0;
+                }
+            }
+            s
+        }),
+    ]
+    .boxed()
+}
+
+fn state_nontrivial(s: &[u64]) -> bool {
+    s.iter().any(|&x| x >= P || is_boundary(x))
+}
+
+// ------------------------------------------------------------------------------------------
+// (a) permutation
+// ------------------------------------------------------------------------------------------
+
+#[derive(Clone, Debug, Serialize, Deserialize)]
+pub struct PermCase {
+    pub state: [u64; 12],
+}
+
+fn perm_strategy() -> BoxedStrategy<PermCase> {
+    bx(state12().prop_map(|state| PermCase { state }))
+}
+
+fn perm_prop(c: &PermCase, st: &mut Stats) -> Result<(), String> {
+    let nc = c.state.iter().filter(|&&x| x >= P).count();
+    st.label(match nc {
+        0 => "perm:all_canonical",
+        12 => "perm:all_noncanonical",
+        _ => "perm:some_noncanonical",
+    });
+    st.label(&format!("perm:lane0_{}", class_of(c.state[0])));
+    if state_nontrivial(&c.state) {
+        st.nontrivial(&("perm", c.state));
+    }
+    st.sample(|| json!({"sub": "poseidon_permute", "state": c.state.to_vec()}));
+
+    let want = pref::permute(&c.state);
+    let inp: [F; 12] = c.state.map(F);
+    cmp("Poseidon::poseidon", &F::poseidon(inp), &want)?;
+    cmp("Poseidon::poseidon_naive", &F::poseidon_naive(inp), &want)?;
+    let mut p1 = PoseidonPermutation::<F>::new(inp.iter().copied());
+    p1.permute();
+    cmp("PoseidonPermutation::new+permute", p1.as_ref(), &want)?;
+    cmp("PoseidonPermutation::squeeze", p1.squeeze(), &want[..8])?;
+    let mut p2 = PoseidonPermutation::<F>::new(core::iter::repeat(F::ONE));
+    p2.set_from_slice(&inp[..5], 0);
+    p2.set_from_iter(inp[5..].iter().copied(), 5);
+    p2.set_elt(inp[11], 11);
+    p2.permute();
+    cmp("PoseidonPermutation::set_*+permute", p2.as_ref(), &want)?;
+    // The residue, not the representation, determines the result.
+    let canon: [F; 12] = c.state.map(|x| F(x % P));
+    cmp("Poseidon::poseidon(canonicalised)", &F::poseidon(canon), &want)?;
+    st.evals(5);
+    Ok(())
+}
+
+// ------------------------------------------------------------------------------------------
+// (a') layers
+// ------------------------------------------------------------------------------------------
+
+#[derive(Clone, Debug, Serialize, Deserialize)]
+pub struct LayerCase {
+    pub state: [u64; 12],
+    pub state2: [u64; 12],
+    pub round: u16,
+}
+
+fn layer_strategy() -> BoxedStrategy<LayerCase> {
+    bx((state12(), state12(), any::<u16>()).prop_map(|(state, state2, round)| LayerCase { state, state2, round }))
+}
+
+fn ext_mul(a: (u64, u64), b: (u64, u64)) -> (u64, u64) {
+    // F[X]/(X^2 - 7)
+    let c0 = pref::addm(pref::mulm(a.0, b.0), pref::mulm(7, pref::mulm(a.1, b.1)));
+    let c1 = pref::addm(pref::mulm(a.0, b.1), pref::mulm(a.1, b.0));
+    (c0, c1)
+}
+
+fn layer_prop(c: &LayerCase, st: &mut Stats) -> Result<(), String> {
+    let s = &c.state;
+    let inp: [F; 12] = s.map(F);
+    if state_nontrivial(s) {
+        st.nontrivial(&("layer", c.state, c.round));
+    }
+    let round = frac(c.round, pref::N_ROUNDS); // 0..30
+    let pr = frac(c.round, pref::N_PARTIAL); // 0..22
+
+    // MDS: optimised (frequency-domain) layer, generic row routine, extension-field variants.
+    let want_mds = pref::mds_layer(s);
+    cmp("mds_layer", &F::mds_layer(&inp), &want_mds)?;
+    for r in 0..12 {
+        let got = pref::red(F::mds_row_shf(r, s));
+        if got != want_mds[r] {
+            return Err(format!("mds_row_shf(r={}): got {:#x} want {:#x} state {:x?}", r, got, want_mds[r], s));
+        }
+    }
+    cmp("mds_layer_field<D=1>", &F::mds_layer_field::<F, 1>(&inp), &want_mds)?;
+    let want_mds2 = pref::mds_layer(&c.state2);
+    let mut ext = [QE::ZERO; 12];
+    for i in 0..12 {
+        ext[i] = QuadraticExtension([F(s[i]), F(c.state2[i])]);
+    }
+    let e = F::mds_layer_field::<QE, 2>(&ext);
+    cmp("mds_layer_field<D=2>.0", &e.map(|x| x.0[0]), &want_mds)?;
+    cmp("mds_layer_field<D=2>.1", &e.map(|x| x.0[1]), &want_mds2)?;
+
+    // Round-constant layer (every round index).
+    let want_c = pref::constant_layer(s, round);
+    let mut t = inp;
+    F::constant_layer(&mut t, round);
+    cmp("constant_layer", &t, &want_c)?;
+    let mut t = inp;
+    F::constant_layer_field::<F, 1>(&mut t, round);
+    cmp("constant_layer_field<D=1>", &t, &want_c)?;
+    let mut te = ext;
+    F::constant_layer_field::<QE, 2>(&mut te, round);
+    cmp("constant_layer_field<D=2>.0", &te.map(|x| x.0[0]), &want_c)?;
+    cmp("constant_layer_field<D=2>.1", &te.map(|x| x.0[1]), &pref::canon(&c.state2))?;
+
+    // S-box.
+    let want_s = pref::sbox_layer(s);
+    let mut t = inp;
+    F::sbox_layer(&mut t);
+    cmp("sbox_layer", &t, &want_s)?;
+    let mut t = inp;
+    F::sbox_layer_field::<F, 1>(&mut t);
+    cmp("sbox_layer_field<D=1>", &t, &want_s)?;
+    let mut te = ext;
+    F::sbox_layer_field::<QE, 2>(&mut te);
+    for i in 0..12 {
+        let x = (s[i] % P, c.state2[i] % P);
+        let x2 = ext_mul(x, x);
+        let x4 = ext_mul(x2, x2);
+        let x7 = ext_mul(ext_mul(x4, x2), x);
+        let got = (te[i].0[0].to_canonical_u64(), te[i].0[1].to_canonical_u64());
+        if got != x7 {
+            return Err(format!("sbox_layer_field<D=2>[{}]: got {:x?} want {:x?} for {:x?}", i, got, x7, x));
+        }
+    }
+
+    // Full rounds from either half; the round counter must advance by 4.
+    for start in [0usize, pref::HALF_FULL + pref::N_PARTIAL] {
+        let mut t = inp;
+        let mut ctr = start;
+        F::full_rounds(&mut t, &mut ctr);
+        cmp(&format!("full_rounds(from {})", start), &t, &pref::rounds(s, start, start + 4))?;
+        if ctr != start + 4 {
+            return Err(format!("full_rounds: round counter {} after starting at {}", ctr, start));
+        }
+    }
+
+    // Partial rounds: optimised, naive and a hand composition of the public pieces.
+    let want_p = pref::rounds(s, pref::HALF_FULL, pref::HALF_FULL + pref::N_PARTIAL);
+    let mut t = inp;
+    let mut ctr = pref::HALF_FULL;
+    F::partial_rounds(&mut t, &mut ctr);
+    cmp("partial_rounds", &t, &want_p)?;
+    if ctr != pref::HALF_FULL + pref::N_PARTIAL {
+        return Err(format!("partial_rounds: round counter {}", ctr));
+    }
+    let mut t = inp;
+    let mut ctr = pref::HALF_FULL;
+    F::partial_rounds_naive(&mut t, &mut ctr);
+    cmp("partial_rounds_naive", &t, &want_p)?;
+    if ctr != pref::HALF_FULL + pref::N_PARTIAL {
+        return Err(format!("partial_rounds_naive: round counter {}", ctr));
+    }
+    let mut t = inp;
+    F::partial_first_constant_layer::<F, 1>(&mut t);
+    t = F::mds_partial_layer_init::<F, 1>(&t);
+    for i in 0..pref::N_PARTIAL {
+        t[0] = F::sbox_monomial::<F, 1>(t[0]);
+        t[0] = unsafe { t[0].add_canonical_u64(<F as Poseidon>::FAST_PARTIAL_ROUND_CONSTANTS[i]) };
+        t = if i % 2 == 0 { F::mds_partial_layer_fast(&t, i) } else { F::mds_partial_layer_fast_field::<F, 1>(&t, i) };
+    }
+    cmp("composed fast partial rounds", &t, &want_p)?;
+
+    // One sparse-matrix step on the raw input (exercises the 160-bit accumulator with extreme
+    // lanes): [d | s_i + s_0 v_i], d = M00 s_0 + sum w_hat_i s_i.
+    let w_hat = <F as Poseidon>::FAST_PARTIAL_ROUND_W_HATS[pr];
+    let vs = <F as Poseidon>::FAST_PARTIAL_ROUND_VS[pr];
+    let mut want_f = [0u64; 12];
+    want_f[0] = pref::mulm(s[0], pref::MDS_CIRC[0] + pref::MDS_DIAG[0]);
+    for i in 1..12 {
+        want_f[0] = pref::addm(want_f[0], pref::mulm(s[i], w_hat[i - 1]));
+        want_f[i] = pref::addm(s[i] % P, pref::mulm(s[0], vs[i - 1]));
+    }
+    cmp(&format!("mds_partial_layer_fast(r={})", pr), &F::mds_partial_layer_fast(&inp, pr), &want_f)?;
+    cmp(
+        &format!("mds_partial_layer_fast_field<D=1>(r={})", pr),
+        &F::mds_partial_layer_fast_field::<F, 1>(&inp, pr),
+        &want_f,
+    )?;
+    st.evals(20);
+    Ok(())
+}
+
+// ------------------------------------------------------------------------------------------
+// (b) sponge
+// ------------------------------------------------------------------------------------------
+
+#[derive(Clone, Debug, Serialize, Deserialize)]
+pub struct SpongeCase {
+    pub msg: Vec<u64>,
+    pub out_len: u8,
+    pub l: [u64; 4],
+    pub r: [u64; 4],
+}
+
+fn msg_len() -> BoxedStrategy<usize> {
+    prop_oneof![
+        3 => prop::sample::select(vec![0usize, 1, 3, 4, 5, 7, 8, 9, 15, 16, 17, 18, 23, 24, 25, 33, 34, 35]),
+        2 => 0usize..=40,
+    ]
+    .boxed()
+}
+
+fn message() -> BoxedStrategy<Vec<u64>> {
+    msg_len()
+        .prop_flat_map(|n| {
+            prop_oneof![
+                4 => vec(any_repr(), n),
+                1 => vec(prop_oneof![Just(0u64), Just(1u64), Just(P), Just(P + 1)], n),
+            ]
+        })
+        .boxed()
+}
+
+fn sponge_strategy() -> BoxedStrategy<SpongeCase> {
+    bx((message(), 1u8..=20, uniform4(any_repr()), uniform4(any_repr()))
+        .prop_map(|(msg, out_len, l, r)| SpongeCase { msg, out_len, l, r }))
+}
+
+fn sponge_prop(c: &SpongeCase, st: &mut Stats) -> Result<(), String> {
+    let n = c.msg.len();
+    st.label(&format!("sponge:len_mod8={}", n % 8));
+    st.label(&format!("sponge:blocks={}", n.div_ceil(8)));
+    st.label(&format!("sponge:squeeze_perms={}", (c.out_len as usize - 1) / 8));
+    if state_nontrivial(&c.msg) || n == 0 {
+        st.nontrivial(&("sponge", &c.msg, c.out_len));
+    }
+    st.sample(|| json!({"sub": "sponge", "len": n, "out_len": c.out_len}));
+    let m = fs(&c.msg);
+    type PH = PoseidonHash;
+    type PP = PoseidonPermutation<F>;
+    cmp("hash_no_pad", &<PH as Hasher<F>>::hash_no_pad(&m).elements, &pref::hash_no_pad(&c.msg))?;
+    cmp("hash_n_to_hash_no_pad", &hash_n_to_hash_no_pad::<F, PP>(&m).elements, &pref::hash_no_pad(&c.msg))?;
+    cmp("hash_pad", &<PH as Hasher<F>>::hash_pad(&m).elements, &pref::hash_pad(&c.msg))?;
+    cmp("hash_or_noop", &<PH as Hasher<F>>::hash_or_noop(&m).elements, &pref::hash_or_noop(&c.msg))?;
+    let k = c.out_len as usize;
+    cmp(
+        &format!("hash_n_to_m_no_pad(m={})", k),
+        &hash_n_to_m_no_pad::<F, PP>(&m, k),
+        &pref::hash_n_to_m_no_pad(&c.msg, k),
+    )?;
+    let (l, r) = (HashOut { elements: c.l.map(F) }, HashOut { elements: c.r.map(F) });
+    let want = pref::two_to_one(&c.l, &c.r);
+    cmp("two_to_one", &<PH as Hasher<F>>::two_to_one(l, r).elements, &want)?;
+    cmp("compress", &compress::<F, PP>(l, r).elements, &want)?;
+    st.evals(6);
+    Ok(())
+}
+
+// ------------------------------------------------------------------------------------------
+// (c) challenger: model-based
+// ------------------------------------------------------------------------------------------
+
+#[derive(Clone, Debug, Serialize, Deserialize)]
+pub enum Op {
+    ObserveElement(u64),
+    ObserveElements(Vec<u64>),
+    ObserveExt([u64; 2]),
+    ObserveExts(Vec<[u64; 2]>),
+    ObserveHash([u64; 4]),
+    ObserveBytesHash(Vec<u8>),
+    ObserveCap(Vec<[u64; 4]>),
+    GetChallenge,
+    GetN(u8),
+    GetHash,
+    GetExt,
+    GetNExt(u8),
+    Compact,
+}
+
+#[derive(Clone, Debug, Serialize, Deserialize)]
+pub struct ChalCase {
+    /// false: Poseidon challenger; true: challenger over the Keccak pseudo-permutation.
+    pub keccak: bool,
+    pub ops: Vec<Op>,
+}
+
+fn op_strategy() -> BoxedStrategy<Op> {
+    prop_oneof![
+        4 => any_repr().prop_map(Op::ObserveElement),
+        3 => vec(any_repr(), 0..=20).prop_map(Op::ObserveElements),
+        1 => uniform2(any_repr()).prop_map(Op::ObserveExt),
+        1 => vec(uniform2(any_repr()), 0..=6).prop_map(Op::ObserveExts),
+        2 => uniform4(any_repr()).prop_map(Op::ObserveHash),
+        1 => vec(any::<u8>(), 25).prop_map(Op::ObserveBytesHash),
+        1 => vec(uniform4(any_repr()), 1..=4).prop_map(Op::ObserveCap),
+        5 => Just(Op::GetChallenge),
+        2 => (0u8..=20).prop_map(Op::GetN),
+        1 => Just(Op::GetHash),
+        1 => Just(Op::GetExt),
+        1 => (0u8..=5).prop_map(Op::GetNExt),
+        1 => Just(Op::Compact),
+    ]
+    .boxed()
+}
+
+fn chal_strategy() -> BoxedStrategy<ChalCase> {
+    bx((prop::bool::weighted(0.15), vec(op_strategy(), 1..=40)).prop_map(|(keccak, ops)| ChalCase { keccak, ops }))
+}
+
+fn bytes25(b: &[u8]) -> [u8; 25] {
+    let mut a = [0u8; 25];
+    let n = b.len().min(25);
+    a[..n].copy_from_slice(&b[..n]);
+    a
+}
+
+/// 7-byte little-endian limbs (how a byte hash is turned into field elements).
+fn bytes_to_elems(b: &[u8; 25]) -> Vec<u64> {
+    b.chunks(7)
+        .map(|ch| {
+            let mut w = [0u8; 8];
+            w[..ch.len()].copy_from_slice(ch);
+            u64::from_le_bytes(w)
+        })
+        .collect()
+}
+
+struct ModelTrace {
+    absorbs: usize,
+    squeezes: usize,
+    squeeze_partial: usize,
+}
+
+fn model_squeeze(m: &mut pref::Duplex, n: usize, st: &mut Stats, tr: &mut ModelTrace) -> Vec<u64> {
+    (0..n)
+        .map(|_| {
+            tr.squeezes += 1;
+            if !m.pending.is_empty() {
+                tr.squeeze_partial += 1;
+                st.label(&format!("chal:squeeze_with_{}_pending", m.pending.len()));
+            } else if m.avail == 0 {
+                st.label("chal:squeeze_refill_empty_input");
+            } else {
+                st.label("chal:squeeze_buffered");
+            }
+            m.challenge()
+        })
+        .collect()
+}
+
+fn model_observe(m: &mut pref::Duplex, xs: &[u64], st: &mut Stats, tr: &mut ModelTrace) {
+    for &x in xs {
+        tr.absorbs += 1;
+        if m.avail > 0 {
+            st.label("chal:observe_invalidates_outputs");
+        }
+        if m.pending.len() == pref::RATE - 1 {
+            st.label("chal:observe_fills_rate");
+        }
+        m.observe(x);
+    }
+}
+
+fn run_challenger<H: Hasher<F>>(
+    ops: &[Op],
+    perm: &dyn Fn(&pref::State) -> pref::State,
+    st: &mut Stats,
+) -> Result<ModelTrace, String> {
+    let mut ch = Challenger::<F, H>::new();
+    let mut m = pref::Duplex::new(perm);
+    let mut tr = ModelTrace { absorbs: 0, squeezes: 0, squeeze_partial: 0 };
+    let at = |i: usize, op: &Op| format!("op #{} {:?}", i, op).chars().take(200).collect::<String>();
+    for (i, op) in ops.iter().enumerate() {
+        match op {
+            Op::ObserveElement(x) => {
+                ch.observe_element(F(*x));
+                model_observe(&mut m, &[*x], st, &mut tr);
+            }
+            Op::ObserveElements(xs) => {
+                ch.observe_elements(&fs(xs));
+                model_observe(&mut m, xs, st, &mut tr);
+            }
+            Op::ObserveExt(e) => {
+                ch.observe_extension_element::<2>(&QuadraticExtension([F(e[0]), F(e[1])]));
+                model_observe(&mut m, e, st, &mut tr);
+            }
+            Op::ObserveExts(es) => {
+                let v: Vec<QE> = es.iter().map(|e| QuadraticExtension([F(e[0]), F(e[1])])).collect();
+                ch.observe_extension_elements::<2>(&v);
+                for e in es {
+                    model_observe(&mut m, e, st, &mut tr);
+                }
+            }
+            Op::ObserveHash(h) => {
+                ch.observe_hash::<PoseidonHash>(HashOut { elements: h.map(F) });
+                model_observe(&mut m, h, st, &mut tr);
+            }
+            Op::ObserveBytesHash(b) => {
+                let b = bytes25(b);
+                ch.observe_hash::<KeccakHash<25>>(BytesHash(b));
+                model_observe(&mut m, &bytes_to_elems(&b), st, &mut tr);
+            }
+            Op::ObserveCap(hs) => {
+                let cap = MerkleCap::<F, PoseidonHash>(hs.iter().map(|h| HashOut { elements: h.map(F) }).collect());
+                ch.observe_cap::<PoseidonHash>(&cap);
+                for h in hs {
+                    model_observe(&mut m, h, st, &mut tr);
+                }
+            }
+            Op::GetChallenge => {
+                let got = ch.get_challenge();
+                cmp(&at(i, op), &[got], &model_squeeze(&mut m, 1, st, &mut tr))?;
+            }
+            Op::GetN(n) => {
+                let got = ch.get_n_challenges(*n as usize);
+                cmp(&at(i, op), &got, &model_squeeze(&mut m, *n as usize, st, &mut tr))?;
+            }
+            Op::GetHash => {
+                let got = ch.get_hash();
+                cmp(&at(i, op), &got.elements, &model_squeeze(&mut m, 4, st, &mut tr))?;
+            }
+            Op::GetExt => {
+                let got: QE = ch.get_extension_challenge::<2>();
+                cmp(&at(i, op), &got.0, &model_squeeze(&mut m, 2, st, &mut tr))?;
+            }
+            Op::GetNExt(n) => {
+                let got: Vec<QE> = ch.get_n_extension_challenges::<2>(*n as usize);
+                let flat: Vec<F> = got.iter().flat_map(|e| e.0).collect();
+                cmp(&at(i, op), &flat, &model_squeeze(&mut m, 2 * *n as usize, st, &mut tr))?;
+            }
+            Op::Compact => {
+                if !m.pending.is_empty() {
+                    st.label("chal:compact_flushes_pending");
+                }
+                let got = ch.compact();
+                cmp(&at(i, op), got.as_ref(), &m.compact())?;
+            }
+        }
+    }
+    // Closing probe: one more challenge, then the full sponge state (incl. capacity lanes).
+    let got = ch.get_challenge();
+    cmp("closing get_challenge", &[got], &[m.challenge()])?;
+    let got = ch.compact();
+    cmp("closing compact (full state)", got.as_ref(), &m.compact())?;
+    st.evals(m.permutations);
+    Ok(tr)
+}
+
+fn chal_prop(c: &ChalCase, st: &mut Stats) -> Result<(), String> {
+    let tr = if c.keccak {
+        st.label("chal:hasher_keccak");
+        run_challenger::<KeccakHash<25>>(&c.ops, &kref::permute, st)?
+    } else {
+        st.label("chal:hasher_poseidon");
+        run_challenger::<PoseidonHash>(&c.ops, &pref::permute, st)?
+    };
+    if tr.absorbs > 0 && tr.squeezes > 0 && tr.squeeze_partial > 0 {
+        st.nontrivial(&("chal", format!("{:?}", c)));
+    }
+    st.sample(|| json!({"sub": "challenger_model", "ops": c.ops.len(), "absorbed": tr.absorbs, "squeezed": tr.squeezes}));
+    Ok(())
+}
+
+// ------------------------------------------------------------------------------------------
+// (c') challenger: re-chunking invariance
+// ------------------------------------------------------------------------------------------
+
+#[derive(Clone, Debug, Serialize, Deserialize)]
+pub struct RechunkCase {
+    /// (elements absorbed, number of challenges squeezed afterwards)
+    pub segments: Vec<(Vec<u64>, u8)>,
+    /// two chunkings: (kind 0..6, size 0..=20), consumed cyclically
+    pub cuts_a: Vec<(u8, u8)>,
+    pub cuts_b: Vec<(u8, u8)>,
+}
+
+fn rechunk_strategy() -> BoxedStrategy<RechunkCase> {
+    let seg = (vec(any_repr(), 0..=30), 0u8..=10);
+    let cuts = || vec((0u8..6, 0u8..=20), 1..=12);
+    bx((vec(seg, 1..=6), cuts(), cuts()).prop_map(|(segments, cuts_a, cuts_b)| RechunkCase { segments, cuts_a, cuts_b }))
+}
+
+fn hash4(x: &[u64]) -> HashOut<F> {
+    HashOut { elements: [F(x[0]), F(x[1]), F(x[2]), F(x[3])] }
+}
+
+fn run_chunked(c: &RechunkCase, cuts: &[(u8, u8)], st: &mut Stats) -> Vec<u64> {
+    let mut ch = Challenger::<F, PoseidonHash>::new();
+    let mut cur = 0usize;
+    let mut out = vec![];
+    for (elems, nsq) in &c.segments {
+        let mut rest: &[u64] = elems;
+        while !rest.is_empty() {
+            let (kind, size) = cuts[cur % cuts.len()];
+            cur += 1;
+            let size = size as usize;
+            let used = match kind {
+                1 => {
+                    let k = size.min(rest.len());
+                    st.label("rechunk:observe_elements");
+                    ch.observe_elements(&fs(&rest[..k]));
+                    k
+                }
+                2 if rest.len() >= 2 => {
+                    st.label("rechunk:observe_extension_element");
+                    ch.observe_extension_element::<2>(&QuadraticExtension([F(rest[0]), F(rest[1])]));
+                    2
+                }
+                3 if rest.len() >= 2 => {
+                    let k = (1 + size % 5).min(rest.len() / 2);
+                    let v: Vec<QE> = (0..k).map(|j| QuadraticExtension([F(rest[2 * j]), F(rest[2 * j + 1])])).collect();
+                    st.label("rechunk:observe_extension_elements");
+                    ch.observe_extension_elements::<2>(&v);
+                    2 * k
+                }
+                4 if rest.len() >= 4 => {
+                    st.label("rechunk:observe_hash");
+                    ch.observe_hash::<PoseidonHash>(hash4(rest));
+                    4
+                }
+                5 if rest.len() >= 4 => {
+                    let k = (1 + size % 4).min(rest.len() / 4);
+                    let cap = MerkleCap::<F, PoseidonHash>((0..k).map(|j| hash4(&rest[4 * j..])).collect());
+                    st.label("rechunk:observe_cap");
+                    ch.observe_cap::<PoseidonHash>(&cap);
+                    4 * k
+                }
+                _ => {
+                    st.label("rechunk:observe_element");
+                    ch.observe_element(F(rest[0]));
+                    1
+                }
+            };
+            rest = &rest[used..];
+        }
+        // Squeeze style is part of the chunking too.
+        let n = *nsq as usize;
+        let (kind, _) = cuts[cur % cuts.len()];
+        cur += 1;
+        let got: Vec<F> = match kind % 3 {
+            0 => ch.get_n_challenges(n),
+            1 => (0..n).map(|_| ch.get_challenge()).collect(),
+            _ => {
+                let mut v = vec![];
+                let mut left = n;
+                while left >= 4 {
+                    v.extend(ch.get_hash().elements);
+                    left -= 4;
+                }
+                while left >= 2 {
+                    v.extend(ch.get_extension_challenge::<2>().0);
+                    left -= 2;
+                }
+                v.extend(ch.get_n_challenges(left));
+                v
+            }
+        };
+        out.extend(got.iter().map(|x| x.to_canonical_u64()));
+    }
+    out.push(ch.get_challenge().to_canonical_u64());
+    out
+}
+
+fn rechunk_prop(c: &RechunkCase, st: &mut Stats) -> Result<(), String> {
+    let a = run_chunked(c, &c.cuts_a, st);
+    let b = run_chunked(c, &c.cuts_b, st);
+    if a != b {
+        return Err(format!("re-chunking changed the challenges: {:x?} vs {:x?}", a, b));
+    }
+    // and both equal the element-by-element model
+    let perm = pref::permute;
+    let mut m = pref::Duplex::new(&perm);
+    let mut want = vec![];
+    let mut partial = false;
+    for (elems, nsq) in &c.segments {
+        for &x in elems {
+            m.observe(x);
+        }
+        for _ in 0..*nsq {
+            partial |= !m.pending.is_empty();
+            want.push(m.challenge());
+        }
+    }
+    want.push(m.challenge());
+    if a != want {
+        return Err(format!("chunked challenger disagrees with the duplex model: {:x?} vs {:x?}", a, want));
+    }
+    let absorbed: usize = c.segments.iter().map(|s| s.0.len()).sum();
+    st.label(&format!("rechunk:absorbed_mod8={}", absorbed % 8));
+    if partial && absorbed > 0 {
+        st.nontrivial(&("rechunk", format!("{:?}", c)));
+    }
+    st.evals(2);
+    Ok(())
+}
+
+// ------------------------------------------------------------------------------------------
+// (d) Keccak
+// ------------------------------------------------------------------------------------------
+
+#[derive(Clone, Debug, Serialize, Deserialize)]
+pub struct KeccakCase {
+    pub msg: Vec<u64>,
+    pub l: Vec<u8>,
+    pub r: Vec<u8>,
+    pub state: [u64; 12],
+}
+
+/// States (found by an offline search with `oracle::keccak_ref`) whose hash chain contains a
+/// 64-bit word >= p among the first twelve words, i.e. that exercise the rejection branch.
+const KECCAK_REJECTION_STATES: &[[u64; 12]] = &[];
+
+fn keccak_state() -> BoxedStrategy<[u64; 12]> {
+    if KECCAK_REJECTION_STATES.is_empty() {
+        return state12();
+    }
+    prop_oneof![
+        9 => state12(),
+        1 => prop::sample::select(KECCAK_REJECTION_STATES.to_vec()),
+    ]
+    .boxed()
+}
+
+fn keccak_strategy() -> BoxedStrategy<KeccakCase> {
+    bx((message(), vec(any::<u8>(), 25), vec(any::<u8>(), 25), keccak_state())
+        .prop_map(|(msg, l, r, state)| KeccakCase { msg, l, r, state }))
+}
+
+fn cmp_bytes(what: &str, got: &[u8], want: &[u8]) -> Result<(), String> {
+    if got != want {
+        return Err(format!("{}: got {:02x?} want {:02x?}", what, got, want));
+    }
+    Ok(())
+}
+
+fn keccak_prop(c: &KeccakCase, st: &mut Stats) -> Result<(), String> {
+    let m = fs(&c.msg);
+    let bytes = kref::field_bytes(&c.msg);
+    st.label(&format!("keccak:blocks={}", bytes.len() / 136 + 1));
+    if bytes.len() % 136 == 135 {
+        st.label("keccak:pad_single_byte_0x81");
+    }
+    if state_nontrivial(&c.msg) || state_nontrivial(&c.state) {
+        st.nontrivial(&("keccak", &c.msg, c.state));
+    }
+    type K25 = KeccakHash<25>;
+    type K32 = KeccakHash<32>;
+    let h = kref::keccak256(&bytes);
+    cmp_bytes("KeccakHash<25>::hash_no_pad", &<K25 as Hasher<F>>::hash_no_pad(&m).0, &h[..25])?;
+    cmp_bytes("KeccakHash<32>::hash_no_pad", &<K32 as Hasher<F>>::hash_no_pad(&m).0, &h)?;
+    let hp = kref::keccak256(&kref::field_bytes(&pref::pad101(&c.msg)));
+    cmp_bytes("KeccakHash<25>::hash_pad", &<K25 as Hasher<F>>::hash_pad(&m).0, &hp[..25])?;
+    // hash_or_noop: inputs that fit into 25 bytes (<= 3 elements) are copied, zero padded.
+    let want_noop: Vec<u8> = if c.msg.len() * 8 <= 25 {
+        let mut v = bytes.clone();
+        v.resize(25, 0);
+        v
+    } else {
+        h[..25].to_vec()
+    };
+    cmp_bytes("KeccakHash<25>::hash_or_noop", &<K25 as Hasher<F>>::hash_or_noop(&m).0, &want_noop)?;
+    let (l, r) = (bytes25(&c.l), bytes25(&c.r));
+    let mut lr = l.to_vec();
+    lr.extend_from_slice(&r);
+    let h2 = kref::keccak256(&lr);
+    cmp_bytes("KeccakHash<25>::two_to_one", &<K25 as Hasher<F>>::two_to_one(BytesHash(l), BytesHash(r)).0, &h2[..25])?;
+    // pseudo-permutation with rejection sampling
+    let (want, rejected, hashes) = kref::permute_model(&c.state);
+    st.label(&format!("keccak:perm_hashes={}", hashes));
+    if rejected > 0 {
+        st.label("keccak:perm_rejected_word");
+    }
+    let mut p = KeccakPermutation::<F>::new(c.state.iter().map(|&x| F(x)));
+    p.permute();
+    cmp("KeccakPermutation::permute", p.as_ref(), &want)?;
+    cmp("KeccakPermutation::squeeze", p.squeeze(), &want[..8])?;
+    st.evals(6);
+    Ok(())
+}
+
+// ------------------------------------------------------------------------------------------
+// driver
+// ------------------------------------------------------------------------------------------
 
 pub fn run(ctx: &mut Ctx) {
-    let _ = ctx;
+    ctx.rule = "(a) 12-lane states from the boundary-biased representation generator (any u64 per lane, all-equal, \
+                all-non-canonical, extreme and sparse shapes); non-trivial = at least one lane non-canonical or in a \
+                boundary class; (b) messages of length 0..=40 biased to block boundaries; (c) op sequences of \
+                length 1..=40 over the challenger; non-trivial = the sequence absorbs and squeezes and at least one \
+                squeeze happens with a partially filled input buffer; distinct = distinct state / op sequence"
+        .into();
+    ctx.assumptions.push(
+        "round constants are read from the crate's public ALL_ROUND_CONSTANTS; the MDS vectors and the four \
+         published permutation test vectors are embedded in the oracle and checked at start-up"
+            .into(),
+    );
+    ctx.assumptions.push("hash_n_to_m_no_pad is only called with at least one output (0 outputs never returns)".into());
+    ctx.assumptions.push(
+        "Keccak pseudo-permutation: the rejection branch (word >= p, probability 2^-32 per word) is reached only \
+         through embedded pre-searched states; a word exactly equal to p is never generated"
+            .into(),
+    );
+    // The reference must reproduce the published vectors; otherwise the harness is broken.
+    for r in [pref::self_check(), kref::self_check()] {
+        if let Err(e) = r {
+            eprintln!("C13 HARNESS ERROR (reference model or specification constants): {}", e);
+            std::process::exit(2);
+        }
+    }
+    if <F as Poseidon>::MDS_MATRIX_CIRC != pref::MDS_CIRC || <F as Poseidon>::MDS_MATRIX_DIAG != pref::MDS_DIAG {
+        ctx.violation(
+            "constants",
+            &json!({"circ": <F as Poseidon>::MDS_MATRIX_CIRC, "diag": <F as Poseidon>::MDS_MATRIX_DIAG}),
+            "MDS_MATRIX_CIRC / MDS_MATRIX_DIAG differ from the published MDS vectors",
+        );
+    }
+
+    let n = ctx.tier.pick(300_000, 40_000_000);
+    ctx.run_sub("poseidon_permute", n, 16, perm_strategy, perm_prop);
+    let n = ctx.tier.pick(60_000, 6_000_000);
+    ctx.run_sub("poseidon_layers", n, 16, layer_strategy, layer_prop);
+    let n = ctx.tier.pick(30_000, 3_000_000);
+    ctx.run_sub("sponge", n, 16, sponge_strategy, sponge_prop);
+    let n = ctx.tier.pick(6_000, 600_000);
+    ctx.run_sub("challenger_model", n, 16, chal_strategy, chal_prop);
+    let n = ctx.tier.pick(4_000, 400_000);
+    ctx.run_sub("challenger_rechunk", n, 16, rechunk_strategy, rechunk_prop);
+    let n = ctx.tier.pick(30_000, 3_000_000);
+    ctx.run_sub("keccak", n, 16, keccak_strategy, keccak_prop);
 }
